@@ -48,10 +48,11 @@ public:
 	}
 	NodeBase& operator=(const NodeBase& n)
 	{
+		_NodeBase* p = n._p; // acquire first: releasing the old node may destroy the object n lives in
+		if (p)
+			p->rc++;
 		unref();
-		_p = n._p;
-		if (_p)
-		_p->rc++;
+		_p = p;
 		return *this;
 	}
 	~NodeBase()
